@@ -112,6 +112,18 @@ def gen_donor(seed, tier, donor):
     n = int(world["n"])
     k = DN.interval_minutes(world)
     sc = {"property": ID, "seed": seed, "world": world, "program": base["program"], "faults": [{"kind": "donor:" + donor}], "donor": donor}
+    # an instrument that drops out of the hourly snapshot for one hour of its life and is back in the next ("data may be
+    # missing due to unstable collect server"): whatever a held position is worth in that hour must not come from later hours
+    rm = R.sub(seed, "missing_mid_life")
+    for mw in world["markets"]:
+        if mw.get("kind") == "deribit" and len(mw.get("hours", [])) >= 3 and rm.random() < 0.35:
+            h = rm.randint(1, len(mw["hours"]) - 2)
+            names = sorted(mw["hours"][h]["rows"])
+            if len(names) >= 1:
+                nm = rm.choice(names)
+                if nm in mw["hours"][h + 1]["rows"] and len(names) > 1:
+                    del mw["hours"][h]["rows"][nm]
+                    sc["faults"].append({"kind": "instrument_missing_for_one_hour", "bar": h})
     cands = sorted(set([0, max(0, nb - 2)] + [rf.randint(0, max(0, nb - 2)) for _ in range(2)]))
     twins = []
     for kb in cands:
@@ -208,6 +220,8 @@ def _literal_kind(x):
             d = Decimal(x)
         except Exception:
             return "text"
+        if not d.is_finite():
+            return "text"  # "nan": an empty cell
         if "." in x or "e" in x.lower():
             return "fraction"
         v = abs(int(d))
